@@ -2,6 +2,7 @@ package mon
 
 import (
 	"fmt"
+	"reflect"
 	"strings"
 
 	stackage "github.com/JesseCoretta/go-stackage"
@@ -79,6 +80,16 @@ func init() {
 	}
 	extraLeaf["ptr"] = func(l *LeafDesc) any {
 		// pointer chain of depth N to a primitive
+		if l.N > 3 {
+			// any depth: built by reflection (*T, **T, ... N levels)
+			rv := reflect.ValueOf(l.Elems[0].Build())
+			for i := 0; i < l.N; i++ {
+				p := reflect.New(rv.Type())
+				p.Elem().Set(rv)
+				rv = p
+			}
+			return rv.Interface()
+		}
 		switch v := l.Elems[0].Build().(type) {
 		case int:
 			p1 := &v
@@ -266,7 +277,11 @@ func c05Leaf(r *core.Rng) *LeafDesc {
 		default:
 			prim = &LeafDesc{Tag: "bool", B: r.Bool()}
 		}
-		return &LeafDesc{Tag: "ptr", N: r.Range(1, 3), Elems: []*LeafDesc{prim}}
+		depth := r.Range(1, 3)
+		if r.Chance(1, 8) {
+			depth = r.Range(9, 24) // "a pointer to one at any depth"
+		}
+		return &LeafDesc{Tag: "ptr", N: depth, Elems: []*LeafDesc{prim}}
 	case 2, 3:
 		return &LeafDesc{Tag: "slice-int", Elems: many(intLeaf, n)}
 	case 4:
@@ -470,7 +485,59 @@ func c05Tier(tier string) int {
 	return 20000
 }
 
+// c05Huge: one flat stack of 513..1100 leaves (well past any chunk, span or small-array regime, with lengths that are
+// not multiples of 8 or 16), two independent instances equal, and single leaves mutated at the first, some middle and each
+// of the last nine positions.
+func c05Huge(c *core.Ctx) {
+	r := c.Rng
+	n := r.Range(513, 1100)
+	if r.Bool() {
+		n |= 1
+	}
+	kind := Kinds[r.Intn(5)]
+	mk := func(mut int) stackage.Stack {
+		s := NewStack(kind, 0)
+		vals := make([]any, n)
+		for i := range vals {
+			vals[i] = i * 3
+			if i%97 == 5 {
+				vals[i] = fmt.Sprintf("s%d", i)
+			}
+			if i == mut {
+				vals[i] = -1 - i
+			}
+		}
+		s.Push(vals...)
+		return s
+	}
+	A, B := mk(-1), mk(-1)
+	desc := map[string]any{"len": n, "kind": kind}
+	if e1, e2 := A.IsEqual(B), B.IsEqual(A); e1 != nil || e2 != nil {
+		c.Violatef("equal-rejected:huge", desc, "two independently built %d-element stacks compare as %v / %v", n, e1, e2)
+		return
+	}
+	pos := []int{0, 1, n / 2, n/2 + 1, r.Intn(n)}
+	for i := 1; i <= 9; i++ {
+		pos = append(pos, n-i)
+	}
+	for _, p := range pos {
+		C := mk(p)
+		for di, e := range []error{A.IsEqual(C), C.IsEqual(A)} {
+			if e == nil {
+				c.Violatef("difference-missed:huge", desc, "a %d-element stack and a copy differing only at position %d compare equal (direction %d)", n, p, di)
+				return
+			}
+		}
+	}
+	c.Count("huge-stacks")
+	c.NontrivialStr(fmt.Sprintf("huge|%d|%s", n, kind))
+}
+
 func c05Run(c *core.Ctx, idx int) {
+	if idx%400 == 399 {
+		c05Huge(c)
+		return
+	}
 	r := c.Rng
 	var base *TNode
 	condRoot := idx%6 == 5
@@ -500,6 +567,8 @@ func c05Run(c *core.Ctx, idx int) {
 			})
 		}
 	}
+	SpiceNoHuge = true
+	defer func() { SpiceNoHuge = false }()
 	if sp := core.NewRng(core.Mix(uint64(c.Seed)+0x5b1ce, uint64(idx))); !condRoot && sp.Chance(1, 6) {
 		// (own PRNG stream, so that the rest of the case is what it was without this step)
 		if did := Spice(sp, base, sp.Chance(1, 2), sp.Chance(1, 2), sp.Chance(1, 2)); did != "" {
